@@ -1,0 +1,41 @@
+//go:build verif
+
+// Package verifexport re-exports internal pure helpers for an external
+// verification harness (build tag verif only).
+package verifexport
+
+import (
+	"github.com/cloudwego/hertz/internal/bytesconv"
+	"github.com/cloudwego/hertz/pkg/network"
+)
+
+// Tables returns the 256-entry lookup tables of internal/bytesconv by name.
+func Tables() map[string]string {
+	return map[string]string{
+		"Hex2intTable":                bytesconv.Hex2intTable,
+		"ToLowerTable":                bytesconv.ToLowerTable,
+		"ToUpperTable":                bytesconv.ToUpperTable,
+		"QuotedArgShouldEscapeTable":  bytesconv.QuotedArgShouldEscapeTable,
+		"QuotedPathShouldEscapeTable": bytesconv.QuotedPathShouldEscapeTable,
+		"ValidCookieValueTable":       bytesconv.ValidCookieValueTable,
+		"ValidHeaderFieldNameTable":   bytesconv.ValidHeaderFieldNameTable,
+		"ValidHeaderFieldValueTable":  bytesconv.ValidHeaderFieldValueTable,
+		"NewlineToSpaceTable":         bytesconv.NewlineToSpaceTable,
+	}
+}
+
+func ParseUintBuf(b []byte) (int, int, error) { return bytesconv.ParseUintBuf(b) }
+
+func ParseUint(b []byte) (int, error) { return bytesconv.ParseUint(b) }
+
+func AppendUint(dst []byte, n int) []byte { return bytesconv.AppendUint(dst, n) }
+
+func AppendQuotedArg(dst, src []byte) []byte { return bytesconv.AppendQuotedArg(dst, src) }
+
+func AppendQuotedPath(dst, src []byte) []byte { return bytesconv.AppendQuotedPath(dst, src) }
+
+func ReadHexInt(r network.Reader) (int, error) { return bytesconv.ReadHexInt(r) }
+
+func WriteHexInt(w network.Writer, n int) error { return bytesconv.WriteHexInt(w, n) }
+
+func LowercaseBytes(b []byte) { bytesconv.LowercaseBytes(b) }
